@@ -116,10 +116,35 @@ func anyStamped(rt, name, stamp string) *anypb.Any {
 }
 
 // badAny: a resource slot that the decoder of type rt must reject.
+// how%3: 0 wrong type URL; 1 right URL with bytes that are not a valid encoding; 2 a resource that is valid protobuf of
+// the right type, carries its own name, and is rejected by the decoder for its *content* (a route without action; a
+// filter chain whose connection-manager payload does not parse) - the decoders attribute that error to the name.
 func badAny(rt string, how int) *anypb.Any {
-	switch how % 2 {
+	switch how % 3 {
 	case 0: // wrong type URL
 		return &anypb.Any{TypeUrl: "type.googleapis.com/verif.Unknown", Value: []byte{1, 2, 3}}
+	case 2:
+		switch rt {
+		case "rds":
+			return mustAny(&v3routepb.RouteConfiguration{
+				Name: "bad-named-rc",
+				VirtualHosts: []*v3routepb.VirtualHost{{
+					Name:   "vh",
+					Routes: []*v3routepb.Route{{Match: &v3routepb.RouteMatch{PathSpecifier: &v3routepb.RouteMatch_Prefix{Prefix: "/"}}}},
+				}},
+			})
+		case "lds":
+			hcmURL := mustAny(&v3httppb.HttpConnectionManager{}).TypeUrl
+			return mustAny(&v3listenerpb.Listener{
+				Name: "bad-named-listener",
+				FilterChains: []*v3listenerpb.FilterChain{{
+					Filters: []*v3listenerpb.Filter{{
+						ConfigType: &v3listenerpb.Filter_TypedConfig{TypedConfig: &anypb.Any{TypeUrl: hcmURL, Value: []byte{0xff, 0xff, 0xff, 0xff, 0x0f, 0x01}}},
+					}},
+				}},
+			})
+		}
+		fallthrough
 	default: // right URL, bytes that are not a valid encoding
 		return &anypb.Any{TypeUrl: urlOf(rt), Value: []byte{0xff, 0xff, 0xff, 0xff, 0x0f, 0x01}}
 	}
